@@ -1,5 +1,5 @@
 """Property -> rules.  Each entry: run(prog, tier) -> (obligations, floors, meta)."""
-from .rules import bounds, arith, index, numctor, cmp, jsonw, memo, strict, lookup, tls, imports, hashord, capi, tables, ops, registry, printf, recur, trace, fmtcover, fmttables, units, fmttokens
+from .rules import bounds, arith, index, numctor, cmp, jsonw, memo, strict, lookup, tls, imports, hashord, capi, tables, ops, registry, printf, recur, trace, fmtcover, fmttables, units, fmttokens, casts
 
 COMMON_TRUST = [
     "rustc nightly HIR/MIR construction, trait resolution and const evaluation",
@@ -71,6 +71,7 @@ def c04(prog, tier):
         arith.run(prog, crate_is(*EVAL_CRATES), floor=40),
         index.run(prog, crate_is(*EVAL_CRATES), floor=25),
         recur.run_frame(prog, crate_is(*EVAL_CRATES)),
+        recur.run_views(prog),
         only(recur.run(prog), ("in_frame:guards", "in_description_frame:guards", "ensure_sufficient_stack:guards")),
         # "after any error the same thread evaluates further programs normally"
         only(tls.run(prog), ("check_depth", "run_assertions", "<StackDepthGuard", "StateEnterGuard", "jrsonnet_evaluator::in_")),
@@ -97,7 +98,7 @@ def c04(prog, tier):
 
 def c12(prog, tier):
     pred = file_is("jrsonnet-evaluator/src/stdlib/format.rs")
-    obs, floors, an = merge(arith.run(prog, pred, floor=8), index.run(prog, pred, floor=12), printf.run(prog))
+    obs, floors, an = merge(arith.run(prog, pred, floor=8), index.run(prog, pred, floor=12), printf.run(prog), casts.run(prog, pred, floor=4))
     meta = {
         "level": "other",
         "explanation": (
@@ -105,12 +106,13 @@ def c12(prog, tier):
             "UnrecognizedConversionType; the 5 flags set the right field; %g switches form exactly at exponent < -4 || exponent >= precision; "
             "the sign column is reserved for neg || blank || sign; format_arr consumes values for width, precision, value in that order, "
             "reports NotEnoughValues at each point, %% consumes nothing, and every successful return follows the surplus-values test; "
-            "std.format, % and std.mod reach the same formatter. "
+            "std.format, % and std.mod reach the same formatter. R-CAST: every float->integer `as` cast in format.rs (they saturate silently) "
+            "is dominated by a two-sided range test of the same value or is a reviewed instance. "
             "Static (MIR) decision of the crash clause of C12 for the format-code parser and renderers (format.rs): every "
             "u16/usize arithmetic trap and every byte index into the format string is dominated by a guard (so truncated "
             "codes surface as TruncatedFormatCode, widths that do not fit as an error). NOT decided: the rendered text."),
         "rule": ARITH_TEXT,
-        "rules": ["R-ARITH", "R-INDEX", "R-PRINTF"],
+        "rules": ["R-ARITH", "R-INDEX", "R-PRINTF", "R-CAST"],
         "analysed": an,
         "decided": "no arithmetic/index trap in format.rs; conversion/flag tables; value accounting",
         "not_decided": "rendered text equals Python-style formatting",
@@ -141,7 +143,8 @@ def c20(prog, tier):
 
 
 def c09(prog, tier):
-    obs, floors, an = merge(numctor.run(prog), cmp.run(prog), registry.run(prog, C09_NAMES))
+    obs, floors, an = merge(numctor.run(prog), cmp.run(prog), registry.run(prog, C09_NAMES),
+                            casts.run(prog, lambda f: not f.file.endswith("jrsonnet-evaluator/src/stdlib/format.rs"), floor=15))
     meta = {
         "level": "other",
         "explanation": (
@@ -152,11 +155,13 @@ def c09(prog, tier):
             "under both safe-integer guards; no transmute fabricates one (so NaN/inf cannot be held by Val::Num); builtin "
             "f64 results re-enter through Val::try_num. (2) One order/equality: NumValue::cmp is IEEE partial_cmp of the "
             "payloads, NumValue::eq / primitive_equals are exact ==, evaluate_compare_op orders numbers by NumValue::cmp(a,b), "
-            "the relational arms use the matching Ordering predicate, the sort fast paths key on NumValue, no total_cmp. "
+            "the relational arms use the matching Ordering predicate, the sort fast paths key on NumValue, no total_cmp. R-CAST: every "
+            "float->integer `as` cast outside format.rs (27 today) is range-tested on both sides, checked by its Typed descriptor "
+            "(BoundedNumber with both bounds), or a reviewed instance. "
             "(3) bitwise/shift arms range-check both operands and reject negative counts on the raw operand; / and % are "
             "dominated by the exact zero-divisor test. NOT decided: correct rounding, libm agreement of composite functions."),
         "rule": "R-NUMCTOR (MIR aggregate sites + dominating facts) and R-CMP (MIR callee identity + HIR match-arm tables)",
-        "rules": ["R-NUMCTOR", "R-CMP", "R-REGISTRY"],
+        "rules": ["R-NUMCTOR", "R-CMP", "R-REGISTRY", "R-CAST"],
         "analysed": an,
         "decided": "finite-only construction; single numeric order/equality; operand range checks; zero-divisor guard",
         "not_decided": "IEEE rounding of + - * /; values returned by libm; shift results",
